@@ -157,6 +157,32 @@ pub fn run(ctx: &Ctx) -> Report {
             }
         }
     });
+    // --- threshold sweep: robots whose a1 / a2 / b / c4 is almost, but not exactly, zero
+    let lad = crate::common::ladder::ladder(&["kinematics_impl.rs"]);
+    let lad: Vec<f64> = if thorough { lad } else { lad.into_iter().step_by(2).collect() };
+    let trobots = tiny_param_robots(&lad, &[6]);
+    let postures: [[f64; 6]; 4] = [[0.3, 0.4, -0.2, 0.7, 0.9, 1.1], [-2.4, -0.9, 0.8, -1.3, -1.2, -2.5], [2.8, -0.9, 0.25, -0.7, -1.1, 0.4], [1.2, 0.5, -1.9, 3.0, 2.2, 0.0]];
+    let tsizes = [trobots.len(), postures.len()];
+    let tn = par::product(&tsizes);
+    let trep = par::run(tn, |idx, r| {
+        let mut ix = [0usize; 2];
+        par::decode(idx, &tsizes, &mut ix);
+        let p = &trobots[ix[0]];
+        let q = user_joints(p, &postures[ix[1]]);
+        match eval(p, &q) {
+            Err(_) => r.skipped_precondition += 1,
+            Ok((fails, nsol)) => {
+                r.states += 1;
+                r.transitions += 1 + nsol as u64;
+                r.sig(format!("tiny-parameter:answers={nsol}"));
+                for (k, d) in fails {
+                    r.fail(format!("{k}/tiny-parameter"), n + idx, case_json(p, &q), d);
+                }
+            }
+        }
+    });
+    rep.merge(trep);
+    rep.set("threshold_sweep", json!({"tiny_parameter_robots": trobots.len(), "postures": postures.len(), "ladder_values": lad.len()}));
     rep.traces_validated = rep.states;
     if !(rep.signatures.contains("answers=8") && rep.signatures.contains("answers=4")) && rep.fails.is_empty() {
         rep.machinery_errors.push("lattice did not produce both 4- and 8-answer poses".into());
@@ -167,7 +193,7 @@ pub fn run(ctx: &Ctx) -> Report {
     rep.rule = "robots R (dof 6) x theta lattice; points whose pose has any arm branch within the oracle margins \
                 (|sin t5|<=1e-3, elbow/reach boundary 1e-6 in cos, shoulder 1 mm) are skipped_precondition; oracle: \
                 q in inverse(FK_ref(q)), |answers| = 2 x reachable arm branches (independent arm IK), twins present, \
-                no duplicates, same size for the pose of every answer; signature = number of answers".into();
+                no duplicates, same size for the pose of every answer; threshold sweep: robots with a1 / a2 / b / c4 = +- each ladder magnitude x 4 postures; signature = number of answers".into();
     rep.set("axes", json!({"robots": robots.len(), "theta_axis_sizes": ax.iter().map(|a| a.len()).collect::<Vec<_>>() }));
     rep.set("tolerances", json!({"match_mod_2pi": MATCH_TOL, "duplicate": DUP_TOL, "sin_margin": SIN_MARGIN}));
     rep.assumptions.push("lattice-relative: values outside the printed axes are not covered".into());
